@@ -74,37 +74,6 @@ def showBuffer (len : Int) (c : CopyOut) : Option String :=
     else if n = 0 then some (if c.extent > 0 then "canary-overwritten" else "-")
     else some (hexBytes (applyStores (List.replicate n 0x55) c.stores))
 
-/-! ## well-formedness -/
-
-/-- The window still belongs to the tree: its parent chain reaches the (live) root. -/
-def attached (st : St) : Nat → Id → Bool
-  | 0, _ => false
-  | fuel + 1, w =>
-    match st.tree.wins[w]? with
-    | none => false
-    | some x =>
-      if x.freed then false
-      else if x.isRoot then true
-      else match x.parent with
-        | none => false
-        | some p => attached st fuel p
-
-def attachedW (st : St) (w : Id) : Bool := attached st (chainFuel st.tree) w
-
-/-- An action the documentation allows in this state: `tickit_window_close(3)` says that after a close "the
-    only operation that is defined any more is tickit_window_unref"; the same goes for the windows below a
-    closed one.  `ref`, `unref` and `close` are allowed on any window the application holds. -/
-def actAllowed (st : St) : Act → Bool
-  | .unref _ | .ref _ | .close _ | .flush | .unbindSelf => true
-  | .restack _ w | .hide w | .«show» w => !heldW st w || attachedW st w
-
-def opAllowed (st : St) : Op → Bool
-  | .act a => actAllowed st a
-  | .win p _ _ => !heldW st p || attachedW st p
-  | .geom w _ | .focus w | .expose w | .setpen w _ | .unbind w _ => !heldW st w || attachedW st w
-  | .bind w _ _ _ => !heldW st w || attachedW st w
-  | _ => true
-
 /-! ## one step -/
 
 def flagBit (f : Nat) (k : Nat) : Bool := (f >>> k) % 2 = 1
@@ -177,7 +146,7 @@ def step (cfg : Cfg) (st : St) : Op → Out (St × String)
     let root : Win := { rect := ⟨0, 0, lines, cols⟩, isRoot := true }
     pure ({ tree := { wins := #[root], root := {} }, wx := #[{}], term := { refcount := 2 } }, "ok")
   | .win p r f =>
-    if !heldW st p then skipR st
+    if !usableW st p then skipR st
     else do
       let (st, _) ← newWin st p r (flagBit f 0) (flagBit f 1) (flagBit f 2) (flagBit f 3)
       pure (st, "ok")
@@ -185,15 +154,15 @@ def step (cfg : Cfg) (st : St) : Op → Out (St × String)
     match simpleOp cfg st a none with
     | none => skipR st
     | some r => okR r
-  | .geom w r => if !heldW st w then skipR st else okR (liftT st (setGeomT st.tree w r))
-  | .focus w => if !heldW st w then skipR st else okR (liftT st (takeFocusT st.tree w))
-  | .expose w => if !heldW st w then skipR st else okR (do exposeWalk st.tree (chainFuel st.tree) w none; pure st)
+  | .geom w r => if !usableW st w then skipR st else okR (liftT st (setGeomT st.tree w r))
+  | .focus w => if !usableW st w then skipR st else okR (liftT st (takeFocusT st.tree w))
+  | .expose w => if !usableW st w then skipR st else okR (do exposeWalk st.tree (chainFuel st.tree) w none; pure st)
   | .bind w ev ret acts =>
-    if !heldW st w then skipR st
+    if !usableW st w then skipR st
     else do
       let (st, id) ← bindEvent st w ev ret acts
       pure (st, s!"id={id}")
-  | .unbind w id => if !heldW st w then skipR st else okR (unbindEvent st w id)
+  | .unbind w id => if !usableW st w then skipR st else okR (unbindEvent st w id)
   | .key => if !heldT st then skipR st else okR (emitKey cfg st)
   | .mouse m => if !heldT st then skipR st else okR (emitMouse cfg st m)
   | .pen => pure ({ st with pens := st.pens.push {} }, "ok")
@@ -209,7 +178,7 @@ def step (cfg : Cfg) (st : St) : Op → Out (St × String)
       okR (penUnref { st with pens := st.pens.setIfInBounds k { p with appRefs := p.appRefs - 1 } } k)
   | .pset k => if !heldP st k then skipR st else pure (st, "ok")
   | .setpen w p =>
-    if !heldW st w then skipR st
+    if !usableW st w then skipR st
     else match p with
       | some k => if !heldP st k then skipR st else okR (setPen st w (some k))
       | none => okR (setPen st w none)
@@ -259,10 +228,10 @@ def step (cfg : Cfg) (st : St) : Op → Out (St × String)
   | .bhline k line c1 c2 => rbUpd st k (fun b => do
       -- TICKIT_LINE_SINGLE, no caps: east = 1<<2, west = 1<<6
       let b ← lineCell b line c1 4
-      let b ← (List.range (c2 - 1 - c1).toNat).foldlM (fun b i => lineCell b line (c1 + 1 + i) 68) b
+      let b ← (List.range (c2 - 1 - c1).toNat).foldlM (fun b (i : Nat) => lineCell b line (c1 + 1 + (i : Int)) 68) b
       lineCell b line c2 64)
   | .bclear k => rbUpd st k (fun b =>
-      (List.range b.lines.toNat).foldlM (fun b l => putSpan b l 0 b.cols (fun c _ => { c with state := .erase })) b)
+      (List.range b.lines.toNat).foldlM (fun b (l : Nat) => putSpan b (l : Int) 0 b.cols (fun c _ => { c with state := .erase })) b)
   | .breset k => rbUpd st k (fun b => pure (rbReset b))
   | .bsave k | .bsavepen k | .brestore k => rbUpd st k pure
   | .bsetpen k p =>
